@@ -15,6 +15,7 @@ def check(run, tier):
     )
     q = tier == "quick"
     run.mc("MC_File")
+    run.mc("MC_File", "MC_File_edits")  # the caller edits the record list between saves (EditList)
     r = rng("C17")
     progs = files.targeted_programs("evo") + files.targeted_programs("fluent")
     for i in range(100 if q else 3000):
